@@ -194,7 +194,7 @@ def _same(got, want, kind):
     return got == want
 
 
-def h_build(comp: int, p: int, mult: int, nested: bool, setitem: bool) -> bool:
+def h_build(comp: int, p: int, mult: int, nested: bool, setitem: bool, extra: bool) -> bool:
     """
     pre: 0 <= comp < len(KINDS) and pinned("comp", comp)
     pre: 0 <= p < len(TABLE) and 1 <= mult <= 3
@@ -210,7 +210,10 @@ def h_build(comp: int, p: int, mult: int, nested: bool, setitem: bool) -> bool:
         c[name] = types_factory.for_property(name)(values[0])     # item assignment with a typed value
     else:
         for v in values:
-            c.add(name, v)
+            if extra:
+                c.add(name, v, parameters={"X-SOURCE": "import"})   # a caller-supplied parameter next to the derived ones
+            else:
+                c.add(name, v)
     c.add("x-after", "a")
     root = c
     if nested:
@@ -252,6 +255,9 @@ def h_build(comp: int, p: int, mult: int, nested: bool, setitem: bool) -> bool:
         if not _same(_decoded(g, kind), _expected(v, kind), kind):
             return False
         head = line.split(":")[0].upper()
+        if extra and not (setitem and len(values) == 1 and kind in ("text", "int")):
+            if ";X-SOURCE=IMPORT" not in head or g.params.get("X-SOURCE") != "import":
+                return False
         if want_value == "PERIOD?":
             pass        # PERIOD is FREEBUSY's default type: VALUE=PERIOD may be present or absent
         elif want_value is None:
